@@ -92,6 +92,17 @@ Second round (blocks marked `x2`; run-time additions in ``lean/PkgModel/PyRx.lea
                top-level ``if not isinstance(p, C): return/raise``; a list bound to fresh values in every branch of a
                top-level ``if`` (or returned by a library function all of whose returns are fresh) counts as owned;
                ``and``/``or`` keep their short circuit whenever an operand contains a lifted action
+Normalisation (x4; `x4_normalise`, applied to the AST before anything else, and `x4_*` methods of ``Fn``): behaviour-preserving
+spellings are mapped to one canonical form so that a harmless refactor regenerates the same (or a trivially convertible) Lean
+definition.  Every rule preserves results, exceptions and evaluation order:
+  N1  ``m[g]`` -> ``m.group(g)`` when local ``m`` is bound once, by a ``match``/``search``/``fullmatch`` call
+  N2  ``xs += e`` -> ``xs.extend(e)`` when every binding of local ``xs`` is a freshly built list (``list.__iadd__`` is ``extend``)
+  N3  ``yield from xs`` (``xs`` a plain local) -> ``for v in xs: yield v`` (consumers only iterate)
+  N4  ``map(str.m, e.split(…))`` -> ``(v.m() for v in e.split(…))``; ``list(map(…))`` -> the list comprehension
+  sets  ``x in <module-level / class-level set or frozenset of str / int constants>`` -> ``PyRt.contains_set`` on the members in
+        sorted order (hoisting an inline display into a named constant; iteration order of a set is unobservable through ``in``)
+  names renaming a local is invisible already: Lean's ``do`` notation orders the state of a loop by declaration, not by name
+Run-time additions of x4: ``PyRt.str_partition`` (one-character separator; defined through ``splitOnMax c 1``).
 Checks made by the translator (a failure makes the function unsupported):
   * a local changed inside a ``try`` body (other than by its last simple statement) must not be read in a handler or after
     a handler that falls through: Lean's ``try … catch`` restores the locals of the ``try`` start;
